@@ -106,6 +106,7 @@ package aml
 //@   requires p != nil && wfR(rd(p)) && numBytes <= 8
 //@   modifies p.r.offset
 //@   ensures wfR(rd(p)) && sameStream(rd(p)) && p.r.pkgEnd == old(p.r.pkgEnd)
+//@   ensures res == parseResultOk || res == parseResultFailed
 //@   ensures ok: res == parseResultOk <==> numBytes == 0 || uint64(old(p.r.offset)) + uint64(numBytes) <= uint64(p.r.pkgEnd)
 //@   ensures consumed: res == parseResultOk ==> p.r.offset == old(p.r.offset) + uint32(numBytes)
 //@   ensures value: res == parseResultOk ==> forall(c, uint8, c < 8 ==> uint8(val >> (8 * uint64(c))) == ite(c < numBytes, byteAt(p, old(p.r.offset) + uint32(c)), 0))
@@ -592,3 +593,16 @@ package aml
 //@   ensures childless: obj != nil && obj.firstArgIndex == InvalidIndex ==> n == 0
 //@   loop 1 (siblingIndex != InvalidIndex) invariant siblingIndex == InvalidIndex || live(tree, siblingIndex)
 //@   loop 1 invariant empty: obj.firstArgIndex == InvalidIndex ==> argCount == 0 && siblingIndex == InvalidIndex
+
+// parseFieldElements (C12, partial): the byte list of a Connection buffer is cut out of the table
+// with the length the stream declares; that length must fit in what is left of the buffer's
+// package, or the tree would refer to bytes outside the table (parseByteList's precondition,
+// stated here because a partial contract only assumes its callees' preconditions; an empty
+// list refers to nothing).
+//@ func (p *Parser) parseFieldElements(curObj *Object) (res parseResult)
+//@   property C12
+//@   partial
+//@   requires p != nil && wfR(rd(p))
+//@   modifies *
+//@   loop 1 (!p.r.EOF()) invariant wfR(rd(p))
+//@   at call parseByteList 1: assert window: arg(obj) == connArg && (arg(dataLen) == 0 || (p.r.offset <= p.r.pkgEnd && arg(dataLen) <= p.r.pkgEnd - p.r.offset))
